@@ -168,6 +168,12 @@ EvInit(e) ==
   /\ tstats' = [tstats EXCEPT !.runs = @ + 1]
   /\ Note(e, IF e.n = N THEN {} ELSE {"WrongDimensionInBatch"})
 
+(* between two public calls the user changes the budget / accuracy on the parameters object: from now on these are "the" itersLimit and eps *)
+EvSetParams(e) ==
+  /\ scfg' = [scfg EXCEPT !.limit = e.limit, !.eps = e.eps]
+  /\ Note(e, {})
+  /\ UNCHANGED <<spts, sM, sZ, sminD, strials, spc, scall0, sfault, slocal, tstats, sn>>
+
 EvCall(e) ==
   /\ spc' = e.name /\ scall0' = strials /\ sfault' = FALSE /\ slocal' = 0
   /\ Note(e, {})
@@ -359,6 +365,7 @@ Consume ==
   /\ LET e == Trace[tpos] IN
        CASE ~WellFormed(e) -> Note(e, {"Malformed"}) /\ UNCHANGED <<scfg, spts, sM, sZ, sminD, strials, spc, scall0, sfault, slocal, tstats, sn>>
          [] e.ev = "init"  -> EvInit(e)
+         [] e.ev = "setparams" -> EvSetParams(e)
          [] e.ev = "call"  -> EvCall(e)
          [] e.ev = "trial" -> EvTrial(e)
          [] e.ev = "fail"  -> EvFail(e)
